@@ -113,44 +113,44 @@ type omHashEnt struct {
 
 // omJSONEnt has the field types encoding/json round-trips.
 type omJSONEnt struct {
-	Key   string               `json:"key" redis:",key"`
-	Ver   int64                `json:"ver" redis:",ver"`
-	ExAt  time.Time            `json:"exat" redis:",exat"`
-	Tag   string               `json:"tag"`
-	Str   string               `json:"str"`
-	I     int                  `json:"i"`
-	I8    int8                 `json:"i8"`
-	I16   int16                `json:"i16"`
-	I32   int32                `json:"i32"`
-	I64   int64                `json:"i64"`
-	U     uint                 `json:"u"`
-	U8    uint8                `json:"u8"`
-	U16   uint16               `json:"u16"`
-	U32   uint32               `json:"u32"`
-	U64   uint64               `json:"u64"`
-	F32   float32              `json:"f32"`
-	F64   float64              `json:"f64"`
-	Bool  bool                 `json:"bool"`
-	Bytes []byte               `json:"bytes"`
-	Strs  []string             `json:"strs"`
-	Ints  []int64              `json:"ints"`
-	Flts  []float64            `json:"flts"`
-	F32s  []float32            `json:"f32s"`
-	Bools []bool               `json:"bools"`
-	PStr  *string              `json:"pstr"`
-	PI64  *int64               `json:"pi64"`
-	PBool *bool                `json:"pbool"`
-	PF64  *float64             `json:"pf64"`
-	Map   map[string]string    `json:"map"`
-	MapSt map[string]omNested  `json:"mapst"`
-	St    omNested             `json:"st"`
-	PSt   *omNested            `json:"pst"`
-	Sts   []omNested           `json:"sts"`
-	Time  time.Time            `json:"time"`
-	PTime *time.Time           `json:"ptime"`
-	Pt    omPoint              `json:"pt"`
-	Arr   [3]int16             `json:"arr"`
-	Omit  string               `json:"omit,omitempty"`
+	Key   string              `json:"key" redis:",key"`
+	Ver   int64               `json:"ver" redis:",ver"`
+	ExAt  time.Time           `json:"exat" redis:",exat"`
+	Tag   string              `json:"tag"`
+	Str   string              `json:"str"`
+	I     int                 `json:"i"`
+	I8    int8                `json:"i8"`
+	I16   int16               `json:"i16"`
+	I32   int32               `json:"i32"`
+	I64   int64               `json:"i64"`
+	U     uint                `json:"u"`
+	U8    uint8               `json:"u8"`
+	U16   uint16              `json:"u16"`
+	U32   uint32              `json:"u32"`
+	U64   uint64              `json:"u64"`
+	F32   float32             `json:"f32"`
+	F64   float64             `json:"f64"`
+	Bool  bool                `json:"bool"`
+	Bytes []byte              `json:"bytes"`
+	Strs  []string            `json:"strs"`
+	Ints  []int64             `json:"ints"`
+	Flts  []float64           `json:"flts"`
+	F32s  []float32           `json:"f32s"`
+	Bools []bool              `json:"bools"`
+	PStr  *string             `json:"pstr"`
+	PI64  *int64              `json:"pi64"`
+	PBool *bool               `json:"pbool"`
+	PF64  *float64            `json:"pf64"`
+	Map   map[string]string   `json:"map"`
+	MapSt map[string]omNested `json:"mapst"`
+	St    omNested            `json:"st"`
+	PSt   *omNested           `json:"pst"`
+	Sts   []omNested          `json:"sts"`
+	Time  time.Time           `json:"time"`
+	PTime *time.Time          `json:"ptime"`
+	Pt    omPoint             `json:"pt"`
+	Arr   [3]int16            `json:"arr"`
+	Omit  string              `json:"omit,omitempty"`
 	NoTag string
 }
 
@@ -657,9 +657,9 @@ func omNewRepo(kind string, cl rueidis.Client) omRepo {
 	return &omAd[omJSONEnt]{r: NewJSONRepository(omPrefix, omJSONEnt{}, cl)}
 }
 
-func omVer(ent reflect.Value) int64      { return ent.FieldByName("Ver").Int() }
-func omTag(ent reflect.Value) string     { return ent.FieldByName("Tag").String() }
-func omSetVer(ent reflect.Value, v int64) { ent.FieldByName("Ver").SetInt(v) }
+func omVer(ent reflect.Value) int64        { return ent.FieldByName("Ver").Int() }
+func omTag(ent reflect.Value) string       { return ent.FieldByName("Tag").String() }
+func omSetVer(ent reflect.Value, v int64)  { ent.FieldByName("Ver").SetInt(v) }
 func omSetTag(ent reflect.Value, s string) { ent.FieldByName("Tag").SetString(s) }
 
 // ---------------------------------------------------------------------------------------------------- plan
@@ -693,8 +693,8 @@ type OmPlan struct {
 	Cache      bool       `json:"cache"`
 	RESP2      bool       `json:"resp2,omitempty"`
 	Ents       int        `json:"ents"`
-	Init       []uint64   `json:"init"`     // per entity: 0 = does not exist at the start, else the salt of its first version
-	InitVer    []int64    `json:"init_ver"` // version field of the entity passed to the first Save
+	Init       []uint64   `json:"init"`                // per entity: 0 = does not exist at the start, else the salt of its first version
+	InitVer    []int64    `json:"init_ver"`            // version field of the entity passed to the first Save
 	ClearPtr   bool       `json:"clear_ptr,omitempty"` // hash: top-level pointer fields may go from a value back to nil
 	NilMask    uint64     `json:"nil_mask,omitempty"`
 	TaskClient []int      `json:"task_client"`
@@ -848,22 +848,22 @@ type omTaskState struct {
 }
 
 type omRun struct {
-	p          *OmPlan
-	e          *simEnv
-	repos      []omRepo
-	logSeen    int
-	ghostDirty bool
-	snaps      []omSnap
-	inits      []*omSaveRec
-	faultBase  int
-	faultFired []bool
+	p           *OmPlan
+	e           *simEnv
+	repos       []omRepo
+	logSeen     int
+	ghostDirty  bool
+	snaps       []omSnap
+	inits       []*omSaveRec
+	faultBase   int
+	faultFired  []bool
 	faultsFired int
-	downUntil  time.Time
-	healed     bool
+	downUntil   time.Time
+	healed      bool
 }
 
-func omID(i int) string  { return pick2(i, "e0", "id:1 x") }
-func omKey(i int) string { return omPrefix + ":" + omID(i) }
+func omID(i int) string                { return pick2(i, "e0", "id:1 x") }
+func omKey(i int) string               { return omPrefix + ":" + omID(i) }
 func pick2(i int, xs ...string) string { return xs[i%len(xs)] }
 
 func omIsNil(v resp.Value) bool { return v.T == '_' || v.Null }
